@@ -35,6 +35,25 @@ type tmLeaf struct {
 	fp2   string // fingerprint of the same certificate carrying the twin signature ("" unless P-256)
 	now   time.Time
 	twinC cert.Certificate // the certificate with the twin signature (nil unless P-256)
+	pool  *cert.CAPool     // ONE pool for this leaf: the genuine certificate is verified on it first, then every tampered encoding of it
+}
+
+// tmCAPools: one long-lived pool per CA, shared by all leaves of that CA (their genuine certificates and all their
+// tampered encodings are verified on it, interleaved)
+var tmCAPools = map[*ccCA]*cert.CAPool{}
+
+func tmPoolFor(ca cert.Certificate) *cert.CAPool {
+	pool := cert.NewCAPool()
+	if err := pool.AddCA(ca); err != nil {
+		panic(err)
+	}
+	return pool
+}
+
+// tmGenuine verifies the genuine certificate of l on pool through both paths; it must be accepted whatever the pool
+// has seen before.
+func tmGenuine(pool *cert.CAPool, l *tmLeaf) bool {
+	return tmVerify(pool, l.now, l.crt)
 }
 
 func tmNewLeaf(c *hx.Ctx, ca *ccCA, ver cert.Version) *tmLeaf {
@@ -324,13 +343,11 @@ func tmVerify(pool *cert.CAPool, now time.Time, d cert.Certificate) bool {
 	return pool.VerifyCachedCertificate(now, cc) == nil
 }
 
-// tmBlocked: with fp on the blocklist both verification paths must refuse d. The cached path is entered with a
-// CachedCertificate made while the blocklist was still empty.
-func tmBlocked(ca cert.Certificate, now time.Time, d cert.Certificate, fp string) bool {
-	pool := cert.NewCAPool()
-	if err := pool.AddCA(ca); err != nil {
-		panic(err)
-	}
+// tmBlocked: with fp on the blocklist both verification paths must refuse d. The pool has verified the genuine
+// certificate before; the cached path is entered with a CachedCertificate made while the blocklist was still empty.
+func tmBlocked(l *tmLeaf, now time.Time, d cert.Certificate, fp string) bool {
+	pool := tmPoolFor(l.ca.crt)
+	tmGenuine(pool, l)
 	cc, err := pool.VerifyCertificate(now, d)
 	if err != nil {
 		return true
@@ -413,7 +430,15 @@ func runCertTamper(c *hx.Ctx) {
 			ca := ccNewCA(c, cert.Version(v), cert.Curve(cv))
 			for lv := 1; lv <= 2; lv++ {
 				for k := 0; k < 3; k++ {
-					leaves = append(leaves, tmNewLeaf(c, ca, cert.Version(lv)))
+					l := tmNewLeaf(c, ca, cert.Version(lv))
+					if tmCAPools[ca] == nil {
+						tmCAPools[ca] = tmPoolFor(ca.crt)
+					}
+					l.pool = tmPoolFor(ca.crt)
+					if !tmGenuine(l.pool, l) || !tmGenuine(tmCAPools[ca], l) {
+						panic("a genuine certificate does not verify")
+					}
+					leaves = append(leaves, l)
 				}
 			}
 		}
@@ -520,15 +545,14 @@ func runCertTamper(c *hx.Ctx) {
 			failures = append(failures, map[string]any{"i": cw.Total(), "code": 2, "what": "decode-panic", "detail": panicked})
 			err = fmt.Errorf("panic")
 		}
-		accepted, blkOrig, blkTwin := false, true, true
+		// three verdicts: on a fresh pool (control), on the leaf's own pool (which verified the genuine certificate and
+		// every earlier tampered encoding of it), and on the CA's shared pool right after another genuine leaf of that CA
+		accepted, accLeaf, accCA, blkOrig, blkTwin := false, false, false, true, true
 		decLit := hx.None()
 		identSame, sigClass := false, "-"
 		if err == nil && d != nil {
 			decLit = hx.Some(ccAnyLit(d))
-			pool := cert.NewCAPool()
-			if e := pool.AddCA(l.ca.crt); e != nil {
-				panic(e)
-			}
+			pool := tmPoolFor(l.ca.crt)
 			func() {
 				defer func() {
 					if r := recover(); r != nil {
@@ -536,10 +560,28 @@ func runCertTamper(c *hx.Ctx) {
 					}
 				}()
 				accepted = tmVerify(pool, l.now, d)
-				if accepted {
-					blkOrig = tmBlocked(l.ca.crt, l.now, d, l.fp)
+				accLeaf = tmVerify(l.pool, l.now, d)
+				shared := tmCAPools[l.ca]
+				var other *tmLeaf
+				for tries := 0; tries < 20 && other == nil; tries++ {
+					if o := leaves[c.Intn(len(leaves))]; o.ca == l.ca && o != l {
+						other = o
+					}
+				}
+				if other != nil && !tmGenuine(shared, other) {
+					failures = append(failures, map[string]any{"i": cw.Total(), "code": 2, "what": "genuine-rejected-after-history"})
+				}
+				if c.Chance(0.5) && !tmGenuine(shared, l) {
+					failures = append(failures, map[string]any{"i": cw.Total(), "code": 2, "what": "genuine-rejected-after-history"})
+				}
+				accCA = tmVerify(shared, l.now, d)
+				if !tmGenuine(l.pool, l) {
+					failures = append(failures, map[string]any{"i": cw.Total(), "code": 2, "what": "genuine-rejected-after-history"})
+				}
+				if accepted || accLeaf || accCA {
+					blkOrig = tmBlocked(l, l.now, d, l.fp)
 					if l.fp2 != "" {
-						blkTwin = tmBlocked(l.ca.crt, l.now, d, l.fp2)
+						blkTwin = tmBlocked(l, l.now, d, l.fp2)
 					}
 				}
 			}()
@@ -558,15 +600,18 @@ func runCertTamper(c *hx.Ctx) {
 		kind := "rejected"
 		if err != nil {
 			kind = "undecodable"
-		} else if accepted {
+		} else if accepted || accLeaf || accCA {
 			kind = "accepted-" + sigClass
+			if !(accepted && accLeaf && accCA) {
+				kind = "accepted-by-history-only-" + sigClass
+			}
 		}
 		stats[what+"/"+kind]++
 		lit := hx.App("CTamper", ccAnyLit(l.crt), hx.N(uint64(form)), ccB(pk), hx.N(uint64(pcurve)), ccB(b), decLit,
-			hx.Bool(accepted), hx.Bool(blkOrig), hx.Bool(blkTwin))
+			hx.Bool(accepted), hx.Bool(accLeaf), hx.Bool(accCA), hx.Bool(blkOrig), hx.Bool(blkTwin))
 		cw.Add(lit, fmt.Sprintf("v%d-c%d-f%d/%s", ver, curve, form, kind), err == nil,
 			map[string]any{"op": "tamper", "version": int(ver), "curve": int(curve), "form": form, "what": what, "decodes": err == nil,
-				"identity_equal": identSame, "accepted": accepted, "signature": sigClass, "blocked_by_orig_fp": blkOrig, "blocked_by_twin_fp": blkTwin,
+				"identity_equal": identSame, "accepted": accepted, "accepted_leaf_pool": accLeaf, "accepted_ca_pool": accCA, "signature": sigClass, "blocked_by_orig_fp": blkOrig, "blocked_by_twin_fp": blkTwin,
 				"bytes": hx.Ints(b)})
 	}
 	cw.Meta("failures", failures)
@@ -574,5 +619,6 @@ func runCertTamper(c *hx.Ctx) {
 	cw.Close("p256.Swap on chosen r/s (0, 1, n/2, n-1, n, n+1, 2^255, 2^256, non-minimal and malformed DER); 48 real leaf certificates (v1/v2 x Curve25519/P256 " +
 		"x v1/v2 CAs) tampered in the standard and the handshake encoding: byte flip/set/insert/delete/truncate/extend/duplicate, tolerated and content-changing " +
 		"re-encodings, twin and foreign signatures, foreign key and curve; through UnmarshalCertificateFromPEM / Recombine and CAPool.VerifyCertificate + " +
-		"VerifyCachedCertificate, with the original and the twin fingerprint blocklisted; non-trivial = the tampered bytes decode; distinct by literal")
+		"VerifyCachedCertificate on three pools (fresh; the leaf's own long-lived pool after its genuine certificate and all earlier tampered encodings; the CA's " +
+		"shared pool interleaved with other genuine leaves), with the original and the twin fingerprint blocklisted; non-trivial = the tampered bytes decode; distinct by literal")
 }
